@@ -7,6 +7,7 @@ use super::*;
 static mut NOTIFIED: [usize; 2] = [0; 2];
 static mut RELEASED: [usize; 2] = [0; 2];
 static mut RELEASED_UNDER_LOCK: [usize; 2] = [0; 2];
+static mut NOTIFIED_UNDER_LOCK: [usize; 2] = [0; 2];
 static mut SUBS: Option<*const Mutex<Vec<Arc<dyn Subscriber<u8, u8> + Send + Sync>>>> = None;
 
 struct Probe(usize);
@@ -14,6 +15,11 @@ impl Subscriber<u8, u8> for Probe {
     fn on_notify(&self, _s: &u8, _a: &u8) {
         unsafe {
             NOTIFIED[self.0] += 1;
+            if let Some(p) = SUBS {
+                if (*p).try_lock().is_err() {
+                    NOTIFIED_UNDER_LOCK[self.0] += 1;
+                }
+            }
         }
     }
     fn on_unsubscribe(&self) {
@@ -97,6 +103,47 @@ fn clear_releases_under_lock() {
         assert!(RELEASED[0] == 1 && RELEASED[1] == 0, "[O-C09-k-clear-releases-once C09 C04] clear_subscribers releases the registered subscriber exactly once");
         assert!(RELEASED_UNDER_LOCK[0] == 1, "[O-C09-k-clear-release-under-lock C09 C04] the shutdown release happens while the subscribers lock is held (atomic with the removal from the list)");
         assert!(NOTIFIED[0] + NOTIFIED[1] == 0, "[O-C09-k-no-notify C09] releasing never notifies");
+    }
+    kani::cover!(true, "harness reaches its end");
+    std::mem::forget(store);
+    std::mem::forget(s0);
+}
+
+// Instant::now() reaches clock_gettime, which Kani does not model; no property mentions time (D4)
+fn now_stub_n() -> Instant {
+    unsafe { std::mem::zeroed() }
+}
+struct NoDispatcher;
+impl crate::dispatcher::Dispatcher<u8> for NoDispatcher {
+    fn dispatch(&self, _a: u8) -> Result<(), crate::store::StoreError> {
+        Ok(())
+    }
+    fn dispatch_thunk(&self, _t: Box<dyn FnOnce(Box<dyn crate::dispatcher::Dispatcher<u8>>) + Send>) {}
+    fn dispatch_task(&self, _t: Box<dyn FnOnce() + Send>) {}
+}
+
+// C09 "once unsubscribe() has returned the subscriber receives nothing further", for every interleaving: unsubscribe()
+// removes the subscriber inside a critical section of the subscribers mutex, so a notification can only be excluded
+// from running after unsubscribe() has returned if on_notify is called inside a critical section of the same mutex
+// (the membership check and the call are then atomic with respect to the removal).
+#[kani::proof]
+#[kani::unwind(4)]
+#[kani::stub(std::time::Instant::now, now_stub_n)]
+fn notify_under_lock() {
+    let store = mk();
+    unsafe {
+        SUBS = Some(&*store.subscribers as *const _);
+    }
+    let s0: Arc<dyn Subscriber<u8, u8> + Send + Sync> = Arc::new(Probe(0));
+    store.subscribers.lock().unwrap().push(s0.clone());
+    let d: Arc<dyn crate::dispatcher::Dispatcher<u8>> = Arc::new(NoDispatcher);
+    let a: u8 = kani::any();
+    let st: u8 = kani::any();
+    store.do_notify(&a, &st, d, now_stub_n());
+    unsafe {
+        assert!(NOTIFIED[0] == 1 && NOTIFIED[1] == 0, "[O-C09-k-notify-once C09 C03] the registered subscriber is notified exactly once per notifying action");
+        assert!(NOTIFIED_UNDER_LOCK[0] == 1, "[O-C09-k-notify-under-lock C09] on_notify runs inside a critical section of the subscribers mutex (a notification cannot be in flight when unsubscribe() returns)");
+        assert!(RELEASED[0] == 0, "[O-C09-k-notify-no-release C09] notifying never releases");
     }
     kani::cover!(true, "harness reaches its end");
     std::mem::forget(store);
